@@ -65,6 +65,22 @@ def STBU_NAME(it: ast.AST) -> str:
 def undefined_variable_rules(ctx, m, gcc, r5: str, r8: str) -> None:
     """R5 + R8 of C04 (an undefined variable is an error; interpolate is a fixpoint), parametrised on the rule ids so
     that C11 can re-use the analysis for its 'undefined variable => rejected' clause."""
+    # the detector is CALLED for every query that substitutes: FlowIR.fill_in is the only place of get_component_configuration where an
+    # undefined variable is noticed, so its call must not depend on the variables that happen to be visible (an 'if variables:' in front
+    # of it - "nothing to substitute" - leaves '%(undefined)s' in place for a component that sees no variable in any scope)
+    fills = [c_ for c_ in source.calls_in(gcc, include_nested=False) if last_attr(c_) == "fill_in" and len(c_.args) >= 2]
+    ctx.require(bool(fills), "anchor missing: the FlowIR.fill_in call of get_component_configuration")
+    for c_ in fills:
+        ctxv = c_.args[1]
+        guards = [x for x in source.ancestors(c_) if isinstance(x, ast.If) and isinstance(ctxv, ast.Name)
+                  and any(isinstance(y, ast.Name) and y.id == ctxv.id for y in ast.walk(x.test))]
+        ctx.ob(r5, guards[0].test if guards else c_, not guards,
+               "the substitution (and with it the detection of undefined variables) does not depend on which variables are visible" if not guards else
+               "get_component_configuration calls FlowIR.fill_in only under a test of the visible variables (%s): a component that sees no variable in any "
+               "scope keeps '%%(undefined)s' in its configuration instead of raising FlowIRVariableUnknown - the result is cached, and validate() no "
+               "longer reports the undefined variable" % short(guards[0].test, 40),
+               construct="get_component_configuration: fill_in is called whatever the visible variables")
+
     # ---------------- R5 -------------------------------------------------------------------------------
     it = m.func("FlowIR.interpolate")
     ctx.analysed(it)
